@@ -214,9 +214,13 @@ class Effects:
             else:
                 classes, _, _, _ = self.cg._recv_classes(owner, e) if owner is fn else ([], [], True, False)
                 out.append(Root("param" if owner is fn else "closure", f"{owner.short}.{name}", tuple(classes), via))
-        # local definitions (flow-insensitive union)
+        # local definitions: the union over all bindings, except that for a local bound only by plain `name = v` statements the ones that
+        # cannot reach this use are left out (`r = self.table; if c: r = r.copy(); r.update(x)`: the update only ever sees the copy)
+        live = self._reaching_assigns(owner, name, e) if owner is fn else None
         for n in fn_nodes(owner):
             if isinstance(n, ast.Assign):
+                if live is not None and id(n) not in live:
+                    continue
                 for t in n.targets:
                     out.extend(self._bind_roots(owner, t, n.value, name, depth, via, seen))
             elif isinstance(n, ast.AnnAssign) and n.value is not None:
@@ -238,6 +242,37 @@ class Effects:
         if not out:
             out.append(Root("unknown", name, (), via))
         return out
+
+    def _reaching_assigns(self, fn: FunctionInfo, name: str, use: ast.AST) -> Optional[Set[int]]:
+        """ids of the `name = v` statements of fn that can reach `use`; None when the name is (also) bound in another way, has fewer than two
+        bindings, or the use is not a node of the CFG (then the flow-insensitive union is taken)"""
+        from .cfg import cfg_of
+        plain = []
+        for n in fn_nodes(fn):
+            if isinstance(n, ast.Assign) and len(n.targets) == 1 and isinstance(n.targets[0], ast.Name) and n.targets[0].id == name:
+                plain.append(n)
+            elif any(isinstance(x, ast.Name) and x.id == name and isinstance(x.ctx, (ast.Store, ast.Del)) for x in ast.walk(n)) and \
+                    isinstance(n, (ast.Assign, ast.AnnAssign, ast.AugAssign, ast.For, ast.comprehension, ast.With, ast.AsyncWith, ast.NamedExpr, ast.Delete, ast.Import, ast.ImportFrom)):
+                if not (isinstance(n, ast.Assign) and n in plain):
+                    return None
+            elif isinstance(n, ast.ExceptHandler) and n.name == name:
+                return None
+        if len(plain) + (1 if name in fn.params else 0) < 2:
+            return None
+        cfg = cfg_of(fn)
+        un = cfg.node_of(use)
+        nodes = [(st, cfg.node_of(st)) for st in plain]
+        if un is None or any(c is None for _s, c in nodes):
+            return None
+        cn = [c for _s, c in nodes]
+        got: Set[int] = set()
+        for st, c in nodes:
+            others = [x for x in cn if x is not c and x is not un]
+            succs = [s_ for s_, lab in cfg.succ[c] if lab != "exc"]
+            blocked = others + ([c] if c is not un else [])
+            if any(s_ is un or un in cfg.reachable(s_, blocked=[b for b in blocked if b is not un]) for s_ in succs if s_ not in blocked or s_ is un):
+                got.add(id(st))
+        return got
 
     def _bind_roots(self, owner, target, value, name, depth, via, seen) -> List[Root]:
         if isinstance(target, ast.Name):
